@@ -159,8 +159,11 @@ def _worker(args):
         if time.time() > deadline:
             agg["capped"] = True
             break
+        _t0 = time.time()
         try:
             res = mod.run_case(case)
+            if os.environ.get("VERIF_TIMING") and time.time() - _t0 > float(os.environ["VERIF_TIMING"]):
+                print("SLOW %.1fs %s" % (time.time() - _t0, json.dumps(case, default=str)[:300]), flush=True)
         except Exception as e:  # uncaught => behaviour the oracle never saw on the clean tree
             res = Result()
             res.violate(
@@ -212,7 +215,7 @@ def run_check(mod, tier, seed, budget_s=None):
             outcomes[o] = outcomes.get(o, 0) + c
         violations += a["violations"]
         samples += a["samples"][:1]
-        capped = capped or a["capped"]
+        capped = capped or a["capped"] or any(str(x).startswith("CAPPED") for x in a["notes"])
         notes |= a["notes"]
     return finish(mod, tier, seed, t0, tot, nontrivial, outcomes, violations, samples,
                   capped, notes)
